@@ -29,8 +29,14 @@ where
     };
     loop {
         let old_x_curr = x_curr;
-        // Halve before adding: the sum of two huge bounds overflows to infinity
-        x_curr = lower_bound / 2_f64 + upper_bound / 2_f64;
+        // The sum of two huge bounds overflows to infinity: only then halve before adding
+        // (halving first rounds in the subnormal range and can leave the bracket)
+        let bound_sum = lower_bound + upper_bound;
+        x_curr = if bound_sum.is_finite() {
+            bound_sum / 2_f64
+        } else {
+            lower_bound / 2_f64 + upper_bound / 2_f64
+        };
         // The first midpoint has no previous midpoint to be compared with
         if iter > 0 && x_curr != 0 as f64 {
             approx_err = {
